@@ -251,6 +251,46 @@ theorem println_split (x : Arg) (rest : List Arg) (sprint : Bytes) :
   | attr _ => rfl
   | attrs _ => rfl
 
+/-! ### whole histories of calls with healthy destinations -/
+
+/-- With healthy destinations one call yields exactly one record if it is admitted and none
+    otherwise, wherever the history stands. -/
+theorem healthy_call_once (c : CallCtx) (start : Nat) (sev : Int) (hh : ∀ n, c.fails n = false) :
+    (logCall c start sev).1.length = if Gen.enabled c.g c.level sev then 1 else 0 := by
+  rw [C13.logCall_proj]
+  have hw : Gen.warnOnFailure (emitRecord c start sev).2.1 sev = false := by
+    simp [C13.warnOnFailure_spec, emitRecord, deliver, hh]
+  split <;> simp [hw]
+
+/-- (15) Exactly once, for whole histories: over any sequence of calls with healthy
+    destinations, the output of the history is the per-call output of each call taken on its own
+    (nothing is carried from call to call, nothing is delivered later or twice), and each call
+    contributes exactly one record when admitted and none when not. -/
+theorem healthy_history_once_each (c : CallCtx) (start : Nat) (sevs : List Int) (hh : ∀ n, c.fails n = false) :
+    (runCalls c start sevs).1 = sevs.map (fun sev => (logCall c 0 sev).1) ∧
+    (runCalls c start sevs).1.map List.length = sevs.map (fun sev => if Gen.enabled c.g c.level sev then 1 else 0) := by
+  have hc : ∀ st, ({ c with fails := fun i => c.fails (st + i) } : CallCtx) = c := by
+    intro st
+    have : (fun i => c.fails (st + i)) = c.fails := by funext i; simp [hh]
+    rw [this]
+  induction sevs generalizing start with
+  | nil => simp [runCalls]
+  | cons sev rest ih =>
+    have h1 : (logCall c start sev).1 = (logCall c 0 sev).1 := by
+      rw [C13.no_sticky_state c start sev, hc start]
+    have h := ih (logCall c start sev).2
+    refine ⟨by simp [runCalls, h1, h.1], ?_⟩
+    simp only [runCalls, List.map_cons, h.2]
+    rw [healthy_call_once c start sev hh]
+
+
+-- non-vacuity: an Info logger with healthy destinations 5 (normal) and 6 (error); the history
+-- Info, Debug, Trace, Warn yields one record each for the admitted calls and none for the others
+example :
+    (runCalls { g := { errorDevice := [(3, true)] }, level := 4, cfg := some { normal := [5], error := [6], leveled := [] },
+                settable := fun _ => false, fails := fun _ => false } 0 [4, 5, 6, 3]).1
+      = [[[.write 5 true]], [], [], [[.write 6 true]]] := by decide
+
 -- non-vacuity: a JSON logger at Info with one normal destination; `Info("m", 7, "k", nil, "dangling")`
 -- is written once, the malformed key and the dangling key leave `k=null` only
 example :
